@@ -45,9 +45,12 @@ class Ctx5:
         else:
             return None
         o = seg.off if seg.off is not None else (seg.rng[0] if seg.rng else None)
+        best = None
         for name, (off, size) in self.b.fields.items():
-            if o is not None and off <= o < off + size:
-                return name, (o - off if seg.off is not None else None)
+            if o is not None and off <= o < off + size and (best is None or size < best[2]):
+                best = (name, (o - off if seg.off is not None else None), size)
+        if best is not None:
+            return best[0], best[1]
         if o is None:
             return "?", None
         return None
